@@ -60,9 +60,20 @@ func fbb.isSID(str) (r)
 func fbb.AddressFromString(addr) (a)
   props C03
 
+# readSection (C09/C01 message framing): a section is its declared number of bytes read from
+# the message stream followed by its line terminator, which is consumed too (else the next
+# section starts two bytes early); success is reported only for a complete section
+ghost var gSectionRead bool
+ghost var gTermRead bool
+
 func fbb.readSection(reader, readN) (buf, err)
-  props C03
+  props C03 C09 C01
   requires reader: reader != nil
+  call io.LimitReader requires from-stream [C09 C01]: unbox($0) == reader && $1 == readN
+  call io.ReadAll set gSectionRead := true
+  call bufio.(*Reader).ReadString requires terminator-after-data [C09 C01]: gSectionRead && $0 == reader && $1 == '\n'
+  call bufio.(*Reader).ReadString set gTermRead := true
+  at return requires whole-section [C09 C01]: $r1 == nil ==> gSectionRead && gTermRead && len($r0) == readN
 
 func fbb.trimLeftSpace(r) ()
   props C03
@@ -580,11 +591,43 @@ func fbb.(*Session).outbound(s) (props)
   ensures no-handler: s.h == nil ==> len(props) == 0
   loop 0 invariant elems: (forall k :: 0 <= k && k < len(props) ==> props[k] != nil && Complete(props[k])) && (forall k :: 0 <= k && k < len(msgs) ==> msgs[k] != nil)
 
-# sort is a permutation of the slice (sort.Sort / sort.Stable contract)
+# C05 block order "precedence, then size": sort by ascending compressed size (ties by MID),
+# then a STABLE sort by precedence, both over the very slice that becomes the block list.
+# What sort.Sort / sort.Stable do with a Less function is the sort package's contract
+# (permutation, ordered by Less, Stable keeps the order of equal elements): assumed.
+ghost var gSizeSorted bool
+ghost var gPrecSorted bool
+
+func fbb.(*Proposal).precedence(p) (r)
+  props C05
+  ensures levels: (strings.Contains(p.title, "//WL2K Z/") ==> r == 0) && (!strings.Contains(p.title, "//WL2K Z/") && strings.Contains(p.title, "//WL2K O/") ==> r == 1) && (!strings.Contains(p.title, "//WL2K Z/") && !strings.Contains(p.title, "//WL2K O/") && strings.Contains(p.title, "//WL2K P/") ==> r == 2) && (!strings.Contains(p.title, "//WL2K Z/") && !strings.Contains(p.title, "//WL2K O/") && !strings.Contains(p.title, "//WL2K P/") ==> r == 3)
+
+func fbb.(bySize).Less(s, i, j) (r)
+  props C05
+  requires idx: 0 <= i && i < len(s) && 0 <= j && j < len(s) && s[i] != nil && s[j] != nil
+  ensures smaller-first: s[i].compressedSize < s[j].compressedSize ==> r
+  ensures larger-last: s[i].compressedSize > s[j].compressedSize ==> !r
+
+func fbb.(byPrecedence).Less(s, i, j) (r)
+  props C05
+  requires idx: 0 <= i && i < len(s) && 0 <= j && j < len(s) && s[i] != nil && s[j] != nil
+  call fbb.(*Proposal).precedence#0 set gPrecI := $r0
+  call fbb.(*Proposal).precedence#1 set gPrecJ := $r0
+  call fbb.(*Proposal).precedence#0 requires left: $0 == s[i]
+  call fbb.(*Proposal).precedence#1 requires right: $0 == s[j]
+  at return requires lower-value-first: $r0 <==> gPrecI < gPrecJ
+
+ghost var gPrecI int
+ghost var gPrecJ int
+
 func fbb.sortProposals(props) ()
   props C05
-  trusted
-  modifies props
-  ensures permutation-keeps-nonnil: (forall k :: 0 <= k && k < len(props) ==> old(props[k]) != nil) ==> (forall k :: 0 <= k && k < len(props) ==> props[k] != nil)
-  ensures permutation-keeps-complete: (forall k :: 0 <= k && k < len(props) ==> old(props[k]) != nil && Complete(old(props[k]))) ==> (forall k :: 0 <= k && k < len(props) ==> props[k] != nil && Complete(props[k]))
+  modifies props, foreign
+  call sort.Sort#0 requires size-pass-first: !gSizeSorted && !gPrecSorted && typeis($0, "bySize") && same(unbox($0), props)
+  call sort.Sort#0 set gSizeSorted := true
+  call sort.Stable#0 requires stable-precedence-pass: gSizeSorted && !gPrecSorted && typeis($0, "byPrecedence") && same(unbox($0), props)
+  call sort.Stable#0 set gPrecSorted := true
+  at return requires both-passes: gSizeSorted && gPrecSorted
+  ensures_trusted permutation-keeps-nonnil: (forall k :: 0 <= k && k < len(props) ==> old(props[k]) != nil) ==> (forall k :: 0 <= k && k < len(props) ==> props[k] != nil)
+  ensures_trusted permutation-keeps-complete: (forall k :: 0 <= k && k < len(props) ==> old(props[k]) != nil && Complete(old(props[k]))) ==> (forall k :: 0 <= k && k < len(props) ==> props[k] != nil && Complete(props[k]))
 @*/
